@@ -299,9 +299,11 @@ def em_update_matrix(
                 context_ind[i + win_offset[w]] = np.searchsorted(
                     col_ind, context + w * n_unique_tokens
                 )
-                # assert(col_ind[context_ind[i + win_offset[w]]] == context+w * n_unique_tokens)
+                # the column may be absent from this row (e.g. removed by thresholding); if it is
+                # larger than every column of the row, searchsorted returns len(col_ind)
                 if (
-                    col_ind[context_ind[i + win_offset[w]]]
+                    context_ind[i + win_offset[w]] < len(col_ind)
+                    and col_ind[context_ind[i + win_offset[w]]]
                     == context + w * n_unique_tokens
                 ):
                     window_posterior[i + win_offset[w]] = (
